@@ -53,14 +53,18 @@ func (c *Config) VerifyConfig(schema base.LogSchema) error {
 func (tf *truncateTransform) Transform(record *base.LogRecord) base.FilterResult {
 	value := tf.keyLocator.Get(record.Fields)
 	if len(value) > tf.maxLength+len(tf.suffix) {
-		valueB := util.BytesFromString(value)
+		// The value must not be edited in place: it is not necessarily backed by this record's own buffer. It may be
+		// a string of the configuration (a mapValue result, a literal of addFields, a level name) shared with every
+		// other record, read-only program data (facility names), or share its bytes with another field.
+		valueB := make([]byte, tf.maxLength, tf.maxLength+len(tf.suffix))
+		copy(valueB, value)
 
 		// truncate and clean up before the maxLength in case of UTF-8 sequences cut in the middle
-		valueTrimmed := util.CleanUTF8(valueB[:tf.maxLength])
+		valueTrimmed := util.CleanUTF8(valueB)
 		// paste suffix at the truncated end - NOT the maxLength as the actual length could be smaller due to UTF-8 cleanup
-		valueOverwritten := util.OverwriteNTruncate(valueB, len(valueTrimmed), tf.suffix)
+		valueTruncated := append(valueTrimmed, tf.suffix...)
 
-		tf.keyLocator.Set(record.Fields, util.StringFromBytes(valueOverwritten))
+		tf.keyLocator.Set(record.Fields, util.StringFromBytes(valueTruncated))
 	}
 	return base.PASS
 }
